@@ -410,6 +410,8 @@ def validate(trace_path, timeout=3000):
 def n_evals(sc):
     if sc["kind"] == "vmap":
         return 2
+    if sc["kind"] == "pickup":
+        return 4
     if sc["kind"] == "glide":
         return sc["w"] + sc["d"] + 3
     return len(sc["obs"]) if sc["kind"] == "geo" else sum(1 for s in sc["steps"] if s["a"] == "cb")
@@ -433,6 +435,8 @@ def run(tier):
     geo += [{"kind": "glide", "cls": "glide", "sk": sk, "w": w, "d": d, "t": t, "e": e, "st": st, "src": "grid-glide"}
             for sk, w in (("imm", 1), ("clk", 1), ("clk", 2)) for d in (0, 1, 3)
             for t, e, st in (([4.0, 0.0, 0.0], [2.0, 0.0, 1.0], 750), ([-3.0, 2.0, 5.0], [-2.0, 1.0, -2.0], 1000), ([0.0, 0.0, -6.0], [0.0, 3.0, 0.0], 0))]
+    # a listener, a spatial track bound to it and a sound, all created while the audio thread is before the n-th drain of its rings
+    geo += [{"kind": "pickup", "cls": "pickup", "n": n, "src": "directed-pickup"} for n in range(1, 10)]
     scen = life + geo
     sp = os.path.join(OUT, "c15", "scen.ndjson")
     tp = os.path.join(OUT, "c15", "trace.ndjson")
